@@ -22,7 +22,8 @@ class Program(object):
         f.rpo = compute_rpo(f)
         name = f.name
         if 'promoted[' in name:
-            m = re.search(r'(\w+)::promoted\[(\d+)\]', name)
+            m = re.search(r'((?:\w+::)?\{closure#\d+\}|\w+)::promoted\[(\d+)\]', mp.strip_generics(name))
+            if m is None: raise EncodeError('unrecognised promoted constant name ' + name)
             s.promoted[(m.group(1), int(m.group(2)))] = f; return
         m = re.search(r'\{closure#\d+\}$', name)
         if m and f.params:
@@ -150,13 +151,13 @@ def stack_slot(tid, cp, idx):
 
 class State(object):
     """one merged control state of a thread: position, guard and its own local environment"""
-    __slots__ = ('cp', 'blk', 'phase', 'g', 'env', 'owned', 'lc', 'fg')
+    __slots__ = ('cp', 'blk', 'phase', 'g', 'env', 'owned', 'lc', 'fg', 'unw')
     def __init__(s, cp, blk, phase, g, env):
-        s.cp = cp; s.blk = blk; s.phase = phase; s.g = g; s.env = env; s.owned = set(env); s.lc = None; s.fg = None
+        s.cp = cp; s.blk = blk; s.phase = phase; s.g = g; s.env = env; s.owned = set(env); s.lc = None; s.fg = None; s.unw = False
     def clone(s, g):
         n = State(s.cp, s.blk, s.phase, g, dict(s.env)); n.owned = set(); s.owned = set()
         if s.lc: n.lc = dict(s.lc)
-        n.fg = s.fg
+        n.fg = s.fg; n.unw = s.unw
         return n
     def get(s, cp, idx):
         f = s.env.get(cp)
@@ -415,8 +416,9 @@ class Machine(object):
             if mm: return St('{closure@%s}' % mm.group(1), {})
             return St(typehead(t), {})
         if 'promoted[' in c:
-            mm = re.search(r'(\w+):+promoted\[(\d+)\]', mp.strip_generics(c))
-            f = s.prog.promoted[(mm.group(1), int(mm.group(2)))]
+            mm = re.search(r'((?:\w+::)?\{closure#\d+\}|\w+):+promoted\[(\d+)\]', mp.strip_generics(c))
+            f = s.prog.promoted.get((mm.group(1), int(mm.group(2)))) if mm else None
+            if f is None: raise EncodeError('promoted constant not found: ' + c)
             return s.eval_promoted(f)
         segs = [x for x in mp.strip_generics(c).split('::') if x]
         if len(segs) >= 2:
@@ -861,11 +863,41 @@ class Machine(object):
         th.panicked = Or(th.panicked, g)
         s.panics.append((th.tid, where, g))
         if s.unwind_mode:
-            s.start_unwind(th, st, t, g); return
+            if st.unw:
+                s.violate('panic-while-unwinding:t%d:%s' % (th.tid, where), g); th.dead = Or(th.dead, g); return
+            st.g = g; st.unw = True
+            tgt = None
+            if t[0] == 'call': tgt = t[5] or (t[4] if t[4] in fn.cleanup else None)
+            elif t[0] == 'drop': tgt = t[3]
+            cur = s.st
+            if tgt is not None:
+                st.blk = tgt; s.push(st)
+            else: s.unwind_pop(th, st)
+            s.st = cur
+            return
         # thread dies here (no unwinding modelled): it never reaches another site
         th.dead = Or(th.dead, g)
+    def unwind_pop(s, th, st):
+        """continue unwinding in the caller: pop frames until one has a cleanup target for the call in progress"""
+        while True:
+            cp = st.cp
+            if len(cp) == 1:
+                th.dead = Or(th.dead, st.g)
+                s.on_thread_exit(th, st.g)
+                return
+            cblk = cp[-1][1]
+            st.env.pop(cp, None); st.owned.discard(cp)
+            st.cp = cp[:-1]; st.blk = cblk
+            fn = s.fn_of(st.cp)
+            t = fn.blocks[cblk].term
+            tgt = None
+            if t[0] == 'call': tgt = t[5] or (t[4] if t[4] in fn.cleanup else None)
+            elif t[0] == 'drop': tgt = t[3]
+            if tgt is not None:
+                st.blk = tgt; s.push(st); return
     def do_resume(s, th, st):
-        raise EncodeError('unwinding not enabled')
+        if not s.unwind_mode: raise EncodeError('unwinding not enabled')
+        s.unwind_pop(th, st)
 
 def _replace(s, v, path, nv):
     """unconditional replacement of the value at path (used for discriminant writes, guard already folded in)"""
